@@ -2,6 +2,7 @@
 import io
 import random
 
+from .. import sentinel
 from ..ref import blocking as ref
 from .c04 import coded, KeepBytesIO
 
@@ -130,7 +131,7 @@ def write_file(ctx, recs, blocked, wapi):
             w.close()
         return f.getvalue()
     ctx.count('files written via ' + wapi)
-    return ctx.call(body, budget=40000 + 100 * len(recs) + size)
+    return ctx.call(body, budget=sentinel.budget_bulk(size + 4 * len(recs) + 2028))
 
 
 def read_file(ctx, data, blocked, rapi):
@@ -173,7 +174,7 @@ def read_file(ctx, data, blocked, rapi):
             return first
         return list(r)
     ctx.count('files read via ' + rapi)
-    return ctx.call(body, budget=40000 + 2 * len(data))
+    return ctx.call(body, budget=sentinel.budget_bulk(len(data) + 2028))
 
 
 def fail(ctx, case, mech, detail):
